@@ -155,8 +155,8 @@ CHECKS = {
             "the hazardous 'client unregistered before delivery' schedule is forced through the verif hook; all other interleavings are sampled, not enumerated",
             "order between back-to-back broadcasts is not part of the statement (each broadcast is delivered by its own goroutine)",
         ],
-        "quick": {"rapid_checks": 400, "timeout": 900},
-        "thorough": {"rapid_checks": 4000, "timeout": 3000, "shards": 8},
+        "quick": {"timeout": 900, "runs": [{"run": "^TestPropChurn$", "rapid_checks": 400}, {"run": "^TestPropRealConnections$", "rapid_checks": 1}]},
+        "thorough": {"timeout": 3000, "shards": 8, "runs": [{"run": "^TestPropChurn$", "rapid_checks": 4000}, {"run": "^TestPropRealConnections$", "rapid_checks": 1}]},
     },
     "C17": {
         "pkg": "./checks/c17",
